@@ -95,8 +95,23 @@ def get_attribute_value(attrs: list, name: str):
 def unquoted(scanner: Scanner):
     "Consumes unquoted value"
     start = scanner.pos
-    if scanner.eat_while(is_unquoted):
+    while scanner.eat_while(is_unquoted) or eat_slash(scanner):
+        pass
+
+    if scanner.pos != start:
         scanner.start = start
+        return True
+
+    return False
+
+
+def eat_slash(scanner: Scanner):
+    """
+    Consumes slash that belongs to unquoted value, as in `<a href=/foo/bar>`:
+    any slash but the one of tag end `/>`
+    """
+    if scanner.peek() == Chars.Slash and scanner.pos + 1 < scanner.end and scanner.string[scanner.pos + 1] != Chars.RightAngle:
+        scanner.pos += 1
         return True
 
     return False
